@@ -82,7 +82,11 @@ func buildWorld(t *rapid.T, nAcc int, base int, perAcc int) (*world, error) {
 				svc.AddCharacteristic(ch)
 				if has(ch.Perms, "pr") && ch.Value == nil {
 					// a hand-written constructor without default: the application sets an initial value
-					ch.UpdateValue(genValue(t, ch))
+					if t != nil {
+						ch.UpdateValue(genValue(t, ch))
+					} else {
+						ch.UpdateValue(staticDefault(ch))
+					}
 				}
 				it := &item{ch: ch, ctor: ctor.Name}
 				if has(ch.Perms, "pr") {
@@ -108,6 +112,19 @@ func buildWorld(t *rapid.T, nAcc int, base int, perAcc int) (*world, error) {
 				w.items[i].aid = a.ID
 				i++
 			}
+		}
+	}
+	// the characteristics of every accessory's information service take part too (low iids on every aid)
+	for _, a := range append([]*accessory.Accessory{bridge.Accessory}, accs...) {
+		for _, ch := range a.Info.Service.Characteristics {
+			it := &item{aid: a.ID, ch: ch, ctor: "info:" + ch.Type}
+			if has(ch.Perms, "pr") {
+				it.want = ch.Value
+			}
+			if has(ch.Perms, "pw") {
+				continue // Identify: writing it is an action, not a value
+			}
+			w.items = append(w.items, it)
 		}
 	}
 	ent, err := d.EntityWithName(acc.Txt()["id"])
@@ -574,4 +591,88 @@ func short(v interface{}) string {
 		return fmt.Sprintf("%s...(%d chars)", s[:40], len(s))
 	}
 	return s
+}
+
+
+// TestC09Concurrent: several verified controllers read large and small responses at the same time;
+// every response must be complete, well-formed and carry the values of the (unchanged) model.
+func TestC09Concurrent(t *testing.T) {
+	reps := stats.EnvInt("VERIF_C09_REPS", 3)
+	for rep := 0; rep < reps; rep++ {
+		w, err := buildWorld(nil, 40, rep*13, 2)
+		if err != nil || w == nil {
+			fmt.Println("VERIF-INCONCLUSIVE:", err)
+			t.Fatalf("%v", err)
+		}
+		ctrl := refctl.NewController("c09-controller", []byte("c09"))
+		d, _ := db.NewDatabase(w.dir)
+		ent, _ := d.EntityWithName(w.acc.Txt()["id"])
+		nctl := 6
+		errs := make(chan error, nctl)
+		for c := 0; c < nctl; c++ {
+			go func(c int) {
+				cl, err := refctl.Dial(w.acc.Addr)
+				if err != nil {
+					errs <- fmt.Errorf("INFRA: %v", err)
+					return
+				}
+				defer cl.Close()
+				cl.Timeout = 30e9
+				if err := refctl.VerifyAndSecure(cl, ctrl, ent.PublicKey, []byte{byte(c), byte(rep), 9}); err != nil {
+					errs <- fmt.Errorf("verify: %v", err)
+					return
+				}
+				me := &world{acc: w.acc, dir: w.dir, cl: cl, items: w.items, naccs: w.naccs}
+				for i := 0; i < 12; i++ {
+					if (i+c)%2 == 0 {
+						if _, _, err := me.checkAccessories(); err != nil {
+							errs <- fmt.Errorf("controller %d, while %d others are reading: %v", c, nctl-1, err)
+							return
+						}
+					} else {
+						var refs []idRef
+						for j := 0; j < 60+c*20; j++ {
+							it := w.items[(j*7+c*3+i)%len(w.items)]
+							refs = append(refs, idRef{it.aid, it.ch.ID, it})
+						}
+						if _, err := me.checkGet(refs); err != nil {
+							errs <- fmt.Errorf("controller %d, while %d others are reading: %v", c, nctl-1, err)
+							return
+						}
+					}
+				}
+				errs <- nil
+			}(c)
+		}
+		var first error
+		for c := 0; c < nctl; c++ {
+			if e := <-errs; e != nil && first == nil {
+				first = e
+			}
+		}
+		stats.Case(stats.Hash("concurrent", rep), true, []string{"concurrent-controllers"}, func() interface{} {
+			return map[string]interface{}{"controllers": nctl, "accessories": w.naccs, "requests_each": 12}
+		})
+		w.close()
+		if first != nil {
+			if strings.HasPrefix(first.Error(), "INFRA") {
+				fmt.Println("VERIF-INCONCLUSIVE:", first)
+			}
+			stats.Fail("TestC09Concurrent", first.Error(), rep)
+			t.Fatalf("%v", first)
+		}
+	}
+}
+
+func staticDefault(ch *characteristic.Characteristic) interface{} {
+	switch hx.FormatKind(ch.Format) {
+	case "bool":
+		return false
+	case "number":
+		if ch.Format == "float" {
+			return 0.0
+		}
+		return 0
+	}
+	return ""
 }
